@@ -17,6 +17,10 @@ ENVS = ['ant', 'halfcheetah', 'hopper', 'humanoid', 'humanoidstandup',
         'swimmer', 'walker2d']
 BACKENDS = ['generalized', 'spring', 'positional']
 KINDS = ['uniform', 'bang', 'hold', 'chatter', 'zero_then_bang']
+# per-member rotation: held = one extreme corner for the whole history
+MEMBER_KINDS = ['uniform', 'bang', 'hold', 'held', 'chatter', 'zero_then_bang',
+                'held', 'bang', 'held', 'uniform', 'held', 'hold', 'held',
+                'bang', 'held', 'chatter']
 # measured single-thread cost classes (s) used only to start long jobs first
 COST = {'humanoid': 9, 'humanoidstandup': 9, 'ant': 5, 'walker2d': 4,
         'halfcheetah': 4, 'hopper': 3, 'pusher': 4, 'swimmer': 3,
@@ -96,7 +100,7 @@ def generate(prop, tier, seed, run):
   rep = run // len(COMBOS)
   kind = KINDS[(run + rep + seed) % len(KINDS)]
   if tier == 'quick':
-    B, T = 8, 200
+    B, T = 16, 200
     L = r.choice([50, 200])
   else:
     B = r.choice([8, 32, 32, 128]) if COST[env] < 9 else r.choice([8, 32])
@@ -113,7 +117,7 @@ def member_kinds(g):
   """Every batch member follows its own schedule kind (rotating through all
   kinds, starting at the run's kind); the last member duplicates member 0."""
   k0 = KINDS.index(g['kind'])
-  kinds = [KINDS[(k0 + b) % len(KINDS)] for b in range(g['B'])]
+  kinds = [MEMBER_KINDS[(k0 + b) % len(MEMBER_KINDS)] for b in range(g['B'])]
   if g['B'] > 1:
     kinds[-1] = kinds[0]
   return kinds
@@ -131,6 +135,8 @@ def make_actions(g, A):
       ab = u
     elif kind == 'bang':
       ab = np.sign(u)
+    elif kind == 'held':
+      ab = np.sign(rng.uniform(-1, 1, size=(1, A))) * np.ones((T, 1))
     elif kind == 'hold':
       h = max(2, g['hold'] + int(rng.integers(-2, 3)))
       s = np.sign(rng.uniform(-1, 1, size=(T // h + 1, A)))
@@ -280,19 +286,27 @@ def execute(g, ctx):
                  'precision': 'x64' if x64 else 'f32'})
     return brief
   if B > 1:
+    # Member B-1 repeats member 0 (same key, same actions). Bitwise equality of
+    # two batch slots is NOT demanded: XLA vectorises lanes differently (seen:
+    # humanoidstandup / walker2d generalized with B = 16 differ in the last
+    # bit from step ~10 on, on the unchanged tree), so only the reset and the
+    # first step are compared, to round-off. Gross dependence on the member
+    # index (python-level state, shared keys) is what this looks for;
+    # cross-process determinism is decided by the replay digests.
     ctx.probe('dup_member_checked')
-    same = (np.array_equal(reward[:, 0], reward[:, B - 1]) and
-            np.array_equal(ck[:, 0], ck[:, B - 1]) and
-            np.array_equal(done[:, 0], done[:, B - 1]) and
-            np.array_equal(fobs[0], fobs[B - 1]))
-    if not same:
-      t = int(np.argwhere((reward[:, 0] != reward[:, B - 1]) |
-                          (ck[:, 0] != ck[:, B - 1]))[0][0]) if \
-          (reward[:, 0] != reward[:, B - 1]).any() or \
-          (ck[:, 0] != ck[:, B - 1]).any() else T
-      ctx.violate('replay.same_key_same_actions', t + 1, sig,
+    ctx.probe('dup_member_bitwise_equal', int(
+        np.array_equal(reward[:, 0], reward[:, B - 1]) and
+        np.array_equal(ck[:, 0], ck[:, B - 1])))
+    o0 = s0[0]
+    sc = 1.0 + np.abs(o0[0]).max()
+    d_reset = float(np.abs(o0[0] - o0[B - 1]).max() / sc)
+    d_step = float(abs(reward[0, 0] - reward[0, B - 1]) /
+                   (1.0 + abs(reward[0, 0])))
+    if d_reset > 1e-5 or d_step > 1e-3 or done[0, 0] != done[0, B - 1]:
+      ctx.violate('replay.same_key_same_actions', 1, sig,
                   {'what': 'two members with identical reset key and actions '
-                           'diverge', 'step': t})
+                           'differ at reset / first step beyond round-off',
+                   'reset_obs_rel_diff': d_reset, 'first_reward_rel_diff': d_step})
       return brief
   return brief
 
